@@ -42,7 +42,7 @@ def script_of(plan):
     if plan["reuse"]:
         lg += " reuse"
     L.append(lg)
-    L += ["    log l1 on always", "      loggee value in .sim.v as v"]
+    L += ["    log l1 on %s" % plan.get("rule", "always"), "      loggee value in .sim.v as v"]
     return "\n".join(L) + "\n"
 
 
@@ -64,7 +64,7 @@ class C23(Check):
     assumptions = ["'dies' = process death: kernel-visible file state survives, user-space buffers do not; power loss is not modelled",
                    "records rotated out by design (the copy beyond 'keep') are not 'lost'",
                    "after a death an empty header-less newest file is not a violation"]
-    required_probes = ["rotated", "killed-mid-rotation", "killed-with-unflushed", "size-gated", "io-error-branch", "designed-drop", "restarted-after-kill", "killed-twice", "flush-schedule-checked"]
+    required_probes = ["rotated", "killed-mid-rotation", "killed-with-unflushed", "size-gated", "io-error-branch", "designed-drop", "restarted-after-kill", "killed-twice", "flush-schedule-checked", "sparse-update", "sparse-change"]
     quick_runs = 120
     thorough_runs = 6000
     shrink_fields = []
@@ -74,17 +74,25 @@ class C23(Check):
         ticks = g.randint(6, 40)
         return {"P": "0.25", "ticks": ticks, "keep": g.choice([1, 2, 3]), "cycle": g.choice(["0.25", "0.5", "1.0", "2.0"]),
                 "size": g.choice([0, 20, 60, 200, 100000]), "flush": g.choice(["1.0", "2.0"]), "reuse": g.random() < 0.6,
-                "lperiod": g.choice([None, None, "0.5"]), "kill": None, "faults": {}}
+                "lperiod": g.choice([None, None, "0.5"]), "kill": None, "faults": {},
+                # mostly the 'always' rule (a record per logger run); sometimes a rule that writes only when the share was written,
+                # with the writes at drawn ticks, so that flushes fall on ticks without a new record and records on ticks without a flush
+                "rule": g.choice(["always", "always", "update", "change"]), "wticks": sorted(g.sample(range(ticks + 3), g.randint(2, max(2, ticks // 2))))}
 
     def directed(self):
         return [{"P": "0.25", "ticks": 14, "keep": 2, "cycle": "0.5", "size": 20, "flush": "1.0", "reuse": True, "lperiod": None, "kill": None, "faults": {}}]
 
     def execute(self, plan):
+        global HEADER
         out = Outcome()
         tr = Trace(keep=False)
         script = script_of(plan)
         P = Fraction(plan["P"])
-        env = {0: dict((t, [(".sim.v", "value", 1000 + t)]) for t in range(plan["ticks"] + 3))}
+        rule = plan.get("rule", "always")
+        HEADER = "text\t%s\tl1\n_time\tv\n" % rule.capitalize()
+        if rule != "always":
+            out.probe("sparse-" + rule)      # a log that does not write on every logger run: ticks with a flush but nothing new, and the reverse
+        env = self._env(plan, 1000)
         if plan.get("kill") is not None or plan.get("faults"):
             self._one(plan, script, P, env, plan.get("kill"), plan.get("faults") or {}, out, tr)
             out.digest = tr.digest()
@@ -162,7 +170,10 @@ class C23(Check):
 
     @staticmethod
     def _env(plan, base):
-        return {0: dict((t, [(".sim.v", "value", base + t)]) for t in range(plan["ticks"] + 3))}
+        w = plan.get("wticks") if plan.get("rule", "always") != "always" else None
+        if w is not None:
+            w = set(w) | {0}      # the first value is written in the first tick, so every record of every process is unique
+        return {0: dict((t, [(".sim.v", "value", base + t)]) for t in range(plan["ticks"] + 3) if w is None or t in w)}
 
     def _after_death(self, fs, lost_before):
         """(records that died in user buffers so far, records that were flushed before this death and so must survive)."""
@@ -263,18 +274,21 @@ class C23(Check):
             if faults:
                 out.probe("io-error-branch")
             elif res is not None and float(plan["flush"]) > 0:
-                # the flush interval: after every logger run, the last completed flush of the main file is less than one interval old
-                # (counted from the start of this process; a rotation attempt flushes too)
+                # the flush interval, judged by the data: after every logger run at time t, every record written at or before
+                # t - interval has been covered by a completed flush of its file (an implementation may skip flushing a log that has
+                # nothing new; it may not leave a record unflushed for longer than the interval).  Counted per process; a rotation
+                # attempt flushes too.
                 epoch = getattr(fs, "deaths", 0)
-                ftimes = sorted(t for (ep, t, p) in fs.fsync_times if ep == epoch and t is not None and p == main)
+                fops = sorted((op, t) for (ep, t, op, p) in fs.fsync_ops if ep == epoch and t is not None and p == main)
+                recs = [(t, op, text) for (ep, t, op, p, text) in fs.written_times if ep == epoch and t is not None and text != HEADER]
                 F = float(plan["flush"])
-                for e in res.trace:
-                    if e[2] == "sent" and e[3] == "lg" and e[5] in (1, 2):
-                        t = e[1]
-                        last = max([x for x in ftimes if x <= t + 1e-9] or [0.0])
-                        if t - last >= F - 1e-9:
-                            return bad("flush-overdue", "no flush within the flush interval [%s]" % sig_cfg,
-                                       "logger ran at t=%s, last completed flush of the main file at t=%s, flush interval %s (flushes at %r)" % (t, last, F, ftimes[:12]))
+                runs = [e[1] for e in res.trace if e[2] == "sent" and e[3] == "lg" and e[5] in (1, 2)]
+                for t in runs:
+                    for tw, opw, text in recs:
+                        if tw <= t - F + 1e-9 and not any(op > opw and tf <= t + 1e-9 for op, tf in fops):
+                            return bad("flush-overdue", "a record stayed unflushed for longer than the flush interval [%s]" % sig_cfg,
+                                       "logger ran at t=%s; record %r written at t=%s has not been covered by a completed flush of the main file (flush interval %s, flushes at %r)"
+                                       % (t, text, tw, F, [tf for _o, tf in fops][:12]))
                 out.probe("flush-schedule-checked")
             if must is not None:
                 gone = [pos[t] for t in must[1] if t in pos and pos[t] not in seen and pos[t] not in designed]
